@@ -137,14 +137,56 @@ def gen(repo, rel, ns, int_consts, byte_consts, packed, funcs, ctrl_write_impl):
         for k, v in enumerate(lits):
             s += "def %s_%s_%d : Nat := %d\n" % (ty, fn, k, v)
         s += "\n"
+    # per function: the set of distinct numbers > 1 it mentions -- integer and byte literals, named integer
+    # constants (resolved to their values), `.len()` of byte-string constants, and the same for the
+    # private helper functions of this file it calls.  A set (sorted), not an ordered list: moving a
+    # literal, replacing `4` by `CTRLMSG_TOKEN_MAGIC.len()` or factoring a helper out does not change it,
+    # a new or a changed number does.  0 and 1 are left out (comparisons with zero, `+ 1`).
+    byte_lens = {}
+    for n in byte_consts:
+        byte_lens[n] = len(byte_list(const_text(src, n, rel), rel, n))
+    free_fns = set(re.findall(r"(?m)^fn\s+([a-z_0-9]+)\s*[<(]", src)) | set(re.findall(r"(?m)^pub fn\s+([a-z_0-9]+)\s*[<(]", src))
+    free_fns -= {"write_chunk", "with_buffer", "chunk_header_size"}
+
+    def numbers(body, depth=0, seen=()):
+        out = set(exlib.int_literals(body)) | set(byte_literals(body))
+        for name in re.findall(r"\b([A-Z][A-Z0-9_]+)\b(?!\s*\.len\(\))", body):
+            if name in env:
+                out.add(env[name])
+        for name in re.findall(r"\b([A-Z][A-Z0-9_]+)\s*\.len\(\)", body):
+            if name in byte_lens:
+                out.add(byte_lens[name])
+        if depth < 2:
+            for callee in set(re.findall(r"\b([a-z_][a-z_0-9]*)\s*\(", body)):
+                if callee in free_fns and callee not in seen:
+                    try:
+                        cb = exlib.fn_body(src, callee, 0, rel)
+                    except exlib.ExtractError:
+                        continue
+                    if cb not in body:   # nested helper functions are already part of the text
+                        out |= numbers(cb, depth + 1, seen + (callee,))
+        return out
+
     for fn, which in funcs:
         body = exlib.fn_body(src, fn, which, rel)
-        s += "/-- integer literals of `fn %s` in %s, in source order -/\n" % (fn, rel)
-        s += "def lits_%s : List Nat := %s\n" % (fn, exlib.lean_nat_list(exlib.int_literals(body)))
-        bl = byte_literals(body)
-        if bl:
-            s += "def bytelits_%s : List Nat := %s\n" % (fn, exlib.lean_nat_list(bl))
-        s += "\n"
+        nums = sorted(n for n in numbers(body, 0, (fn,)) if n > 1)
+        s += "/-- distinct numbers > 1 mentioned by `fn %s` in %s (literals, resolved constants, `.len()` of byte\n" % (fn, rel)
+        s += "string constants, private helpers followed), sorted -/\n"
+        s += "def nums_%s : List Nat := %s\n\n" % (fn, exlib.lean_nat_list(nums))
+    # sizes of the writer's stack buffers and the connless padding byte, by variable name / pattern
+    body = exlib.fn_body(src, "write_impl", 0, rel)
+    for var, lean in (("token_buffer", "WRITE_TOKEN_BUFFER_SIZE"), ("compression_buffer", "WRITE_COMPRESSION_BUFFER_SIZE")):
+        m = re.search(r"let\s+mut\s+%s\s*:\s*ArrayVec<\[u8;\s*([0-9_]+)\]>" % var, body)
+        if m:
+            s += "/-- capacity of `%s` in `write_impl` -/\ndef %s : Nat := %d\n\n" % (var, lean, int(m.group(1).replace("_", "")))
+        elif var == "compression_buffer" or ns == "Packet6":
+            raise exlib.ExtractError("ArrayVec `%s` of write_impl not found in %s" % (var, rel))
+    if ns == "Packet6":
+        body = exlib.fn_body(src, "write_connless_packet", 0, rel)
+        m = re.search(r"buffer\.write\(&\[\s*b'(\\x[0-9a-fA-F]{2})'\s*;", body)
+        if not m:
+            raise exlib.ExtractError("padding bytes of write_connless_packet not found in %s" % rel)
+        s += "/-- the byte a connless packet's header and padding consist of -/\ndef CONNLESS_PADDING_BYTE : Nat := %d\n\n" % int(m.group(1)[2:], 16)
     # the size limit of the connectionless writer: `if payload.len() > <expr> { return Err(TooLongData) }`
     body = exlib.fn_body(src, "write_connless_packet", 0, rel)
     m = re.search(r"payload\.len\(\)\s*>\s*([^{]+)\{\s*return\s+Err\(Error::TooLongData\)", body)
@@ -175,8 +217,8 @@ def gen(repo, rel, ns, int_consts, byte_consts, packed, funcs, ctrl_write_impl):
     s += "def READ_BUFFER_DOCUMENTED : Nat := %d\n\n" % env[m.group(1)]
     # `impl ControlPacket { fn write }`
     body = exlib.fn_body(impl_body(src, "ControlPacket", rel), "write", 0, "%s impl ControlPacket" % rel)
-    s += "/-- integer literals of `ControlPacket::write` in %s -/\n" % rel
-    s += "def lits_control_write : List Nat := %s\n\n" % exlib.lean_nat_list(exlib.int_literals(body))
+    s += "/-- distinct numbers > 1 mentioned by `ControlPacket::write` in %s -/\n" % rel
+    s += "def nums_control_write : List Nat := %s\n\n" % exlib.lean_nat_list(sorted(n for n in numbers(body) if n > 1))
     s += "end Tw.Gen.%s\n" % ns
     return s
 
